@@ -122,6 +122,75 @@ impl CaseSet for Pairs {
     }
 }
 
+/// "Cold concurrent start": every case is a fresh process in which the very first evaluations
+/// happen on several threads at once (behind a barrier) over wide documents - the moment at which
+/// lazily initialised shared state (tables, caches) is built. Each thread checks every returned
+/// path against the Normalized Path of the node found by address.
+pub struct Cold {
+    pub rounds: usize,
+}
+
+fn cold_doc() -> J {
+    J::Obj(vec![
+        ("w".into(), J::Arr((0..4000).map(J::int).collect())),
+        ("n".into(), J::Arr((0..70).map(|i| J::Arr((0..i).map(J::int).collect())).collect())),
+        ("o".into(), J::Obj((0..600).map(|i| (format!("k'{}", i), J::int(i))).collect())),
+    ])
+}
+const COLD_QUERIES: [&str; 8] = ["$.w[*]", "$.w[::-1]", "$.n[*][*]", "$.o.*", "$..[*]", "$.w[?@ > 3900]", "$.n[69][::2]", "$.w[16:4000:17]"];
+
+impl CaseSet for Cold {
+    fn len(&self) -> usize {
+        self.rounds
+    }
+    fn describe(&self, idx: usize) -> Value {
+        json!({"kind": "schedule", "family": "cold-concurrent-start", "round": idx, "query": COLD_QUERIES[idx % COLD_QUERIES.len()], "threads": ([2usize, 4, 8, 12, 16])[idx % 5]})
+    }
+    fn run(&self, idx: usize, acc: &mut Acc) -> Vec<(String, Value)> {
+        let doc = crate::libapi::Doc::new(&cold_doc());
+        let threads = [2usize, 4, 8, 12, 16][idx % 5];
+        let q = COLD_QUERIES[idx % COLD_QUERIES.len()];
+        let shared = idx % 2 == 0;
+        let parsed = if shared { libapi::parse(q).ok().and_then(|r| r.ok()).map(Arc::new) } else { None };
+        let barrier = Barrier::new(threads);
+        let bad: Mutex<Option<String>> = Mutex::new(None);
+        acc.evaluations += 1;
+        std::thread::scope(|s| {
+            for t in 0..threads {
+                let (doc, barrier, bad, parsed) = (&doc, &barrier, &bad, &parsed);
+                s.spawn(move || {
+                    barrier.wait();
+                    for round in 0..3 {
+                        let out = match parsed {
+                            Some(p) => libapi::process(p, &doc.value),
+                            None => libapi::query_with_path(q, &doc.value),
+                        };
+                        match out {
+                            LibOutcome::Ok(ns) => {
+                                for (a, p) in &ns {
+                                    let want = doc.loc_of(*a).map(|l| oracle::npath::render(l));
+                                    if want.as_deref() != Some(p.as_str()) {
+                                        *bad.lock().unwrap() = Some(format!("thread {} round {}: node at {:?} reported with path {:?}", t, round, want, p));
+                                        return;
+                                    }
+                                }
+                            }
+                            o => {
+                                *bad.lock().unwrap() = Some(o.brief());
+                                return;
+                            }
+                        }
+                    }
+                });
+            }
+        });
+        match bad.into_inner().unwrap() {
+            Some(m) => vec![(format!("cold concurrent start ({} threads, {}): {} for {}", threads, if shared { "one shared parsed query" } else { "text entry point" }, m, q), self.describe(idx))],
+            None => vec![],
+        }
+    }
+}
+
 fn entry_points_agree(q: &str, v: &Value) -> Result<(), String> {
     let before = v.clone();
     let r1 = libapi::query_with_path(q, v);
@@ -179,6 +248,73 @@ pub fn run(ctx: &Ctx) -> Result<Evidence, String> {
     let _ = wacc;
     if baseline.len() * 10 < n * 9 {
         return Err(format!("only {} of {} fresh-process baselines could be computed", baseline.len(), n));
+    }
+
+    // (c0) cold concurrent starts, each in a fresh process
+    {
+        let cold = Cold { rounds: ctx.tier.pick(40, 400) };
+        let iso = Isolation { exe: exe_for("release"), args: vec!["worker".into(), "C12".into(), "cold".into(), ctx.tier.name().into()], stack_bytes: None, mem_bytes: Some(8 << 30), env: vec![], chunk: Some(1), max_deaths: 1000000 };
+        let cacc = run_isolated(ctx, &cold, &iso, ctx.threads.min(4), &|idx, d| ctx.violate(&format!("cold concurrent start round {} did not complete: {:?}", idx, d).chars().take(300).collect::<String>(), cold.describe(idx)));
+        acc.count("cold_concurrent_start_processes", cacc.evaluations);
+    }
+
+    // (f) many distinct query texts, repeated, on all cores (caches with eviction, lock-order
+    // problems): every evaluation is judged against the reference evaluator (nodes and paths;
+    // order is C02's business) and against the first result seen for that text
+    {
+        let mut r = Rng::stream(ctx.seed, 4242);
+        let qcfg = gen::QueryCfg::default();
+        let mut texts: Vec<String> = vec![];
+        for _ in 0..ctx.tier.pick(1500, 6000) {
+            texts.push(oracle::render::render(&gen::random_query(&mut r, &qcfg), &mut oracle::render::Spelling::canonical()));
+        }
+        for n in 0..700 {
+            texts.push(format!("$.data.k{}", n));
+            texts.push(format!("$..k{}", n));
+            texts.push(format!("$.data['k{}']", n));
+            texts.push(format!("$[?@.k{} == {}]", n, n));
+        }
+        let cfg = gen::DocCfg::default();
+        let mut d = gen::random_doc(&mut r, &cfg);
+        if let J::Obj(o) = &mut d {
+            o.push(("data".into(), J::Obj((0..700).map(|i| (format!("k{}", i), J::int(i))).collect())));
+        } else {
+            d = J::Obj(vec![("data".into(), J::Obj((0..700).map(|i| (format!("k{}", i), J::int(i))).collect())), ("a".into(), d)]);
+        }
+        let doc = crate::libapi::Doc::new(&d);
+        let parsed_texts: Vec<oracle::parse::Parsed> = texts.iter().map(|t| oracle::parse::analyze(t)).collect();
+        let first: Mutex<HashMap<usize, Vec<String>>> = Mutex::new(HashMap::new());
+        let n_items = ctx.tier.pick(120_000, 2_000_000);
+        let none = crate::findings::Armed::default();
+        let seed = ctx.seed;
+        let facc = crate::ctx::par_run(ctx, n_items, |i, a: &mut Acc| {
+            let mut rr = Rng::stream(seed, 31_000 + i as u64);
+            // a moving window over the text list, so that entries are evicted and come back
+            let k = ((i / 64) * 7 + rr.below(96) as usize) % texts.len();
+            let t = &texts[k];
+            a.evaluations += 1;
+            let j = crate::judge::judge_query(t, &parsed_texts[k], &doc, crate::judge::NODES | crate::judge::PATHS, &none);
+            if let crate::judge::Verdict::Violated(m) = &j.verdict {
+                ctx.violate(&format!("after many distinct queries on all cores: {}", m), crate::judge::replay_json("query", t, &doc, &j));
+                return;
+            }
+            if let LibOutcome::Ok(ns) = &j.lib {
+                let paths: Vec<String> = ns.iter().map(|n| n.1.clone()).collect();
+                let mut f = first.lock().unwrap();
+                match f.get(&k) {
+                    None => {
+                        f.insert(k, paths);
+                    }
+                    Some(p0) => {
+                        if *p0 != paths {
+                            ctx.violate(&format!("the result of {:?} changed between two evaluations in one process", t), json!({"kind":"history","query": t, "first": p0, "later": paths}));
+                        }
+                    }
+                }
+            }
+        });
+        acc.count("many_texts_evaluations", facc.evaluations);
+        acc.count("many_texts_distinct_queries", texts.len() as u64);
     }
 
     // parsed documents: one long-lived instance per distinct text
